@@ -110,7 +110,10 @@ def gen_case(rng, cfg, idx):
             s = shapes[x]
             st.append(["inplace", x, rng.choice(["setitem", "iadd", "imul", "outtensor"]), rng.choice(same(s) + [None])])
         elif r < 0.69 and live_t:
-            st.append(["fail", rng.choice(live_t), rng.choice(arrs)])
+            if rng.random() < 0.5:
+                st.append(["fail", rng.choice(live_t), rng.choice(arrs)])
+            else:   # failure AFTER the kernel ran (result tensor rejected), with a repeated / view / raw-array operand
+                st.append(["fail_late", rng.choice(live_t + arrs), rng.choice(["dtype", "dtype_repeat", "int_const"])])
         elif r < 0.75 and arrs:
             src = rng.choice(arrs)
             v = new("a")
@@ -345,6 +348,21 @@ def exec_stmt(env, mon, s, guarded):
         except Exception:
             pass
         del bad
+    elif k == "fail_late":
+        _, name, how = s
+        a = env[name]
+        mon.see(a.data if isinstance(a, Tensor) else a, name)
+        try:
+            if how == "dtype":
+                mg.add(a, 1.0, dtype=np.complex64)
+            elif how == "dtype_repeat":
+                mg.multiply(a, a, dtype=np.complex64)
+            else:
+                ia = np.arange(int(np.prod(a.shape))).reshape(a.shape)
+                mon.see(ia, "ia")
+                mg.add(ia, ia[...], constant=False)
+        except Exception:
+            pass
     elif k == "backward":
         env[s[1]].backward()
     elif k == "clear":
